@@ -104,9 +104,21 @@ def check_tree(ctx, t, dialects, case, variant, in_place=False):
             compare(ctx, "json", t, load(json.loads(text)), dialects, case, variant)
         except Exception as e:
             ctx.violation(f"json-load-raises:{variant}:{type(e).__name__}", {"sql": case["sql"], "error": repr(e)[:200]}, case)
-    # 3 pickle
+    # 3 pickle (of a tree whose hashes are cached, as they are after any comparison or set membership)
     try:
-        compare(ctx, "pickle", t, pickle.loads(pickle.dumps(t)), dialects, case, variant)
+        hash(t)
+        unp = pickle.loads(pickle.dumps(t))
+        compare(ctx, "pickle", t, unp, dialects, case, variant)
+        # the unpickled tree is a tree like any other: an edit below its root must be visible in == and in the hashes
+        leaf = next((n for n in unp.walk() if n is not unp and isinstance(n, (exp.Literal, exp.Identifier)) and n.this != "zz9"), None)
+        if leaf is not None:
+            leaf.set("this", "zz9")
+            ctx.count("edits_after_unpickling")
+            stale = canon.check_hashes(unp)
+            if stale:
+                ctx.violation(f"pickle:{variant}:stale-hash-after-edit", {"sql": case["sql"], "problem": stale[0]}, case)
+            elif unp == t:
+                ctx.violation(f"pickle:{variant}:edited-tree-still-equal", {"sql": case["sql"]}, case)
     except Exception as e:
         ctx.violation(f"pickle-raises:{variant}:{type(e).__name__}", {"sql": case["sql"], "error": repr(e)[:200]}, case)
     # 4 copy
